@@ -76,7 +76,7 @@ pub fn last_panic_location() -> String {
 pub fn trace_matches_disk(ctl: &Ctl, dir: &str) -> Result<(), String> {
     let sh = crate::shadowfs::Shadow::replay(&ctl.trace, ctl.trace.len());
     let want = sh.process_image(&ctl.names);
-    let got = crate::shadowfs::read_image(dir).map_err(|e| format!("cannot list {dir}: {e}"))?;
+    let got = crate::shadowfs::read_image_all(dir).map_err(|e| format!("cannot list {dir}: {e}"))?;
     if want == got {
         return Ok(());
     }
